@@ -84,23 +84,69 @@ func parseBound(t string) interface{} {
 	return parseVal(t)
 }
 
-// case: ch <format> <perms> <min> <max> <init> op...
-func runCharac(id string, toks []string) (res string) {
-	c := characteristic.NewCharacteristic("TEST")
-	c.Format = toks[1]
-	for _, ch := range toks[2] {
-		switch ch {
-		case 'r':
-			c.Perms = append(c.Perms, characteristic.PermRead)
-		case 'w':
-			c.Perms = append(c.Perms, characteristic.PermWrite)
-		case 'e':
-			c.Perms = append(c.Perms, characteristic.PermEvents)
+func permLetters(c *characteristic.Characteristic) string {
+	s := ""
+	for _, p := range c.Perms {
+		switch p {
+		case characteristic.PermRead:
+			s += "r"
+		case characteristic.PermWrite:
+			s += "w"
+		case characteristic.PermEvents:
+			s += "e"
 		}
 	}
-	c.MinValue = parseBound(toks[3])
-	c.MaxValue = parseBound(toks[4])
-	c.Value = parseVal(toks[5])
+	if s == "" {
+		s = "-"
+	}
+	return s
+}
+
+// case: ch <format> <perms> <min> <max> <init> op...          synthetic characteristic
+//       cc <ctor> <format> <perms> <min> <max> <init> op...   the object returned by a catalog constructor (the explicit
+//                                                              fields are for the model; the real object is used here)
+//       dump <ctor>                                            initial state of a catalog constructor
+func runCharac(id string, toks []string) (res string) {
+	var c *characteristic.Characteristic
+	if toks[0] == "dump" || toks[0] == "cc" {
+		f, ok := charRegistry[toks[1]]
+		if !ok {
+			return "unknown"
+		}
+		func() {
+			defer func() { recover() }()
+			c = f()
+		}()
+		if c == nil {
+			return "ctor-panic"
+		}
+		if toks[0] == "dump" {
+			b := func(v interface{}) string {
+				if v == nil {
+					return "-"
+				}
+				return showVal(v)
+			}
+			return fmt.Sprintf("%s %s %s %s %s", c.Format, permLetters(c), b(c.MinValue), b(c.MaxValue), showVal(c.Value))
+		}
+		toks = toks[1:]
+	} else {
+		c = characteristic.NewCharacteristic("TEST")
+		c.Format = toks[1]
+		for _, ch := range toks[2] {
+			switch ch {
+			case 'r':
+				c.Perms = append(c.Perms, characteristic.PermRead)
+			case 'w':
+				c.Perms = append(c.Perms, characteristic.PermWrite)
+			case 'e':
+				c.Perms = append(c.Perms, characteristic.PermEvents)
+			}
+		}
+		c.MinValue = parseBound(toks[3])
+		c.MaxValue = parseBound(toks[4])
+		c.Value = parseVal(toks[5])
+	}
 	var cbs []string
 	c.OnValueUpdate(func(c *characteristic.Characteristic, nw, old interface{}) {
 		cbs = append(cbs, "L/"+showVal(nw)+"/"+showVal(old))
